@@ -30,9 +30,9 @@ func (c06) ID() string { return "C06" }
 func (c06) Plan(tier string) fw.Plan {
 	p := fw.Plan{
 		Batches: 16, Cases: 12, TimeoutSec: 1200, Level: "fault_enumeration", Exhaustive: true,
-		Rule: "one case = one stored block (codec ∈ {dag-cbor, dag-json, cbor, json, raw}, hasher from go-multihash's core registry incl. identity and truncated digests, 1–300 bytes, incl. blocks whose decoder fails early / succeeds on a prefix / slurps trailing whitespace). For the block and each of Load, LoadRaw, LoadPlusRaw, Fill the storage boundary is faulted exhaustively: every single-bit flip at every offset, every truncation length, six appended-byte classes, substitution by other blocks, a read error after every k bytes, and a family of chunkings (1-byte, Fibonacci, mixed) of the unmodified block. Store side: a writer failing at its k-th Write for every k and a node whose iterator fails after every k entries; the committer is a harness closure that records calls. Oracle: stdlib digest of the bytes the reader serves. exhaustive=true refers to these per-block fault classes. Distinct = distinct blocks; non-trivial = block ≥ 8 bytes.",
+		Rule: "one case = one stored block (codec ∈ {dag-cbor, dag-json, cbor, json, raw}, hasher from go-multihash's core registry incl. identity and truncated digests, 1–300 bytes, incl. blocks whose decoder fails early / succeeds on a prefix / slurps trailing whitespace). For the block and each of Load, LoadRaw, LoadPlusRaw, Fill the storage boundary is faulted exhaustively: every single-bit flip at every offset, every truncation length, six appended-byte classes, substitution by other blocks, a read error after every k bytes, and a family of chunkings (1-byte, Fibonacci, mixed) of the unmodified block. Also: the storage opener failing (with and without a reader), loads into a prototype whose builder refuses the block's kind (a mismatch must outrank assembler errors too; an intact block must not be called a mismatch), and per batch three blocks of 4–64 KiB faulted at and around the 512/4096/32768/65536 buffer boundaries through five reader shapes. Store side: a writer failing at its k-th Write for every k and a node whose iterator fails after every k entries; the committer is a harness closure that records calls. Oracle: stdlib digest of the bytes the reader serves. exhaustive=true refers to these per-block fault classes. Distinct = distinct blocks; non-trivial = block ≥ 8 bytes.",
 		Assumptions: []string{"stdlib crypto digests + lib/ref/link decide whether served bytes hash to the link", "TrustedStorage is left false"},
-		MinEvents:   []string{"faulted_loads", "bitflips", "truncations", "read_errors_injected", "chunkings", "store_writer_faults", "store_encoder_faults", "must_fail_observed", "must_succeed_observed"},
+		MinEvents:   []string{"open_errors_injected", "big_block_faulted_loads", "faulted_loads", "bitflips", "truncations", "read_errors_injected", "chunkings", "store_writer_faults", "store_encoder_faults", "must_fail_observed", "must_succeed_observed"},
 	}
 	if tier == "thorough" {
 		p.Batches, p.Cases, p.TimeoutSec = 64, 60, 3000
@@ -185,7 +185,14 @@ func (c06) RunCase(c *fw.Ctx, rng *fw.RNG, batch, i int) {
 	}
 	cleanVal := obs.ReadOut(cleanNode, obs.Options{Light: true}).Val
 
-	ops := []string{"Load", "LoadRaw", "LoadPlusRaw", "Fill"}
+	ops := []string{"Load", "LoadRaw", "LoadPlusRaw", "Fill", "Load:rejecting-prototype"}
+	// a prototype whose builder refuses the block's top-level kind: the decode then fails in the ASSEMBLER, not
+	// in the codec — a hash mismatch must outrank that error as well, and an intact block must fail without
+	// being called a mismatch
+	var rejecting datamodel.NodePrototype = basicnode.Prototype.String
+	if cleanNode.Kind() == datamodel.Kind_String {
+		rejecting = basicnode.Prototype.Int
+	}
 	try := func(fault string, mk func() *faultReader) {
 		for _, op := range ops {
 			cur = mk()
@@ -201,6 +208,8 @@ func (c06) RunCase(c *fw.Ctx, rng *fw.RNG, batch, i int) {
 				switch op {
 				case "Load":
 					n, err = lsys.Load(linking.LinkContext{}, blk.link, basicnode.Prototype.Any)
+				case "Load:rejecting-prototype":
+					n, err = lsys.Load(linking.LinkContext{}, blk.link, rejecting)
 				case "LoadRaw":
 					raw, err = lsys.LoadRaw(linking.LinkContext{}, blk.link)
 				case "LoadPlusRaw":
@@ -237,6 +246,17 @@ func (c06) RunCase(c *fw.Ctx, rng *fw.RNG, batch, i int) {
 			default:
 				c.Count("must_succeed_observed", 1)
 				// served bytes hash to the link: same outcome as the clean load
+				if bytes.Equal(served, blk.data) && op == "Load:rejecting-prototype" {
+					var hm linking.ErrHashMismatch
+					if err == nil {
+						c.Deviate("C06:rejecting-prototype-accepts", fmt.Sprintf("%s: Load into %T succeeded for a block of kind %v", fault, rejecting, cleanNode.Kind()))
+					} else if errors.As(err, &hm) {
+						c.Deviate("C06:intact-block-called-mismatch", fmt.Sprintf("%s: the unmodified block, refused by the builder, was reported as a hash mismatch: %v", fault, err))
+					} else if n != nil {
+						c.Deviate("C06:node-with-error:"+op, fmt.Sprintf("%s: %s returned a node together with error %v", fault, op, err))
+					}
+					continue
+				}
 				if bytes.Equal(served, blk.data) {
 					if err != nil {
 						c.Deviate("C06:intact-block-fails:"+op, fmt.Sprintf("%s: the unmodified block under this read pattern made %s fail: %v", fault, op, err))
@@ -335,8 +355,196 @@ func (c06) RunCase(c *fw.Ctx, rng *fw.RNG, batch, i int) {
 		_ = k
 	}
 
+	// ---- storage OPEN errors: the opener fails, with and without handing out a reader as well
+	for _, withReader := range []bool{false, true} {
+		wr := withReader
+		lsys.StorageReadOpener = func(linking.LinkContext, datamodel.Link) (io.Reader, error) {
+			if wr {
+				return &faultReader{data: blk.data, failAt: -1}, errInjectedOpen
+			}
+			return nil, errInjectedOpen
+		}
+		for _, op := range ops {
+			curFault = fmt.Sprintf("open error (reader also returned: %v) / %s", wr, op)
+			var n datamodel.Node
+			var raw []byte
+			var err error
+			if c.Guard("C06:"+op, func() {
+				switch op {
+				case "Load", "Load:rejecting-prototype":
+					n, err = lsys.Load(linking.LinkContext{}, blk.link, basicnode.Prototype.Any)
+				case "LoadRaw":
+					raw, err = lsys.LoadRaw(linking.LinkContext{}, blk.link)
+				case "LoadPlusRaw":
+					n, raw, err = lsys.LoadPlusRaw(linking.LinkContext{}, blk.link, basicnode.Prototype.Any)
+				case "Fill":
+					nb := basicnode.Prototype.Any.NewBuilder()
+					err = lsys.Fill(linking.LinkContext{}, blk.link, nb)
+				}
+			}) {
+				continue
+			}
+			c.Count("open_errors_injected", 1)
+			if err == nil {
+				c.Deviate("C06:open-error-swallowed:"+op, fmt.Sprintf("the storage opener failed but %s returned no error (node=%v, raw %d bytes)", op, n != nil, len(raw)))
+			} else if n != nil || len(raw) > 0 {
+				c.Deviate("C06:data-with-open-error:"+op, fmt.Sprintf("%s returned data together with the opener's error %v", op, err))
+			}
+		}
+	}
 	// ---- store side
 	c06StoreSide(c, rng, blk)
+	if i == 0 {
+		c06BigBlocks(c, rng)
+	}
+}
+
+var errInjectedOpen = errors.New("injected storage open error")
+
+// c06BigBlocks: blocks that span the buffer sizes readers and hashers work in (512, 4096, 32 KiB, 64 KiB).
+// Faults are placed at and around those boundaries and at both ends rather than at every offset; every load
+// form; the same oracle. (A buffering layer that mishandles the boundary between two fills is invisible on the
+// ≤ 300-byte corpus blocks.)
+func c06BigBlocks(c *fw.Ctx, rng *fw.RNG) {
+	lsys := cidlink.DefaultLinkSystem()
+	type big struct {
+		codec uint64
+		v     model.Val
+	}
+	sizes := []int{4096, 4097, 5000, 32768, 40000, 65536 + 17}
+	sz := sizes[rng.Intn(len(sizes))]
+	long := string(bytes.Repeat([]byte("0123456789abcdef"), sz/16+1)[:sz])
+	bigs := []big{
+		{0x55, model.Bytes(rng.Bytes(sz))},
+		{0x71, model.List(model.Bytes(rng.Bytes(sz/2)), model.Map(model.E("k", model.String(long[:sz/2]))), model.Int(7))},
+		{0x0129, model.Map(model.E("a", model.String(long)), model.E("z", model.List(model.Int(1), model.Int(2))))},
+	}
+	for _, b := range bigs {
+		hc := []uint64{0x12, 0x13, 0x11, 0xd5, 0x20, 0x1015}[rng.Intn(6)]
+		proto := reflink.Proto{Version: 1, Codec: b.codec, MhType: hc, MhLength: -1}
+		lp := cidlink.LinkPrototype{Prefix: cid.Prefix{Version: 1, Codec: b.codec, MhType: hc, MhLength: -1}}
+		var buf bytes.Buffer
+		lsys.StorageWriteOpener = func(linking.LinkContext) (io.Writer, linking.BlockWriteCommitter, error) {
+			return &buf, func(datamodel.Link) error { return nil }, nil
+		}
+		lnk, err := lsys.Store(linking.LinkContext{}, lp, fnode.New(b.v))
+		if err != nil {
+			continue
+		}
+		data := append([]byte(nil), buf.Bytes()...)
+		want := model.SortKeys(b.v, model.BytewiseLess)
+		var curFault string
+		c.SetCase(func() any {
+			return map[string]any{"family": "big block", "codec": fmt.Sprintf("%#x", b.codec), "multihash": fmt.Sprintf("%#x", hc), "block_len": len(data), "fault": curFault}
+		})
+		c.Count("big_blocks", 1)
+		var cur *faultReader
+		lsys.StorageReadOpener = func(linking.LinkContext, datamodel.Link) (io.Reader, error) { return cur, nil }
+		try := func(fault string, mk func() *faultReader) {
+			for _, op := range []string{"Load", "LoadRaw", "LoadPlusRaw", "Fill"} {
+				cur = mk()
+				curFault = fault + " / " + op
+				served := cur.data
+				if cur.failAt >= 0 && cur.failAt < len(served) {
+					served = served[:cur.failAt]
+				}
+				ioErr := cur.failAt >= 0
+				wl, _ := reflink.Of(proto, cur.data)
+				hashOK := string(wl) == lnk.Binary()
+				var n datamodel.Node
+				var raw []byte
+				var err error
+				if c.Guard("C06:"+op, func() {
+					switch op {
+					case "Load":
+						n, err = lsys.Load(linking.LinkContext{}, lnk, basicnode.Prototype.Any)
+					case "LoadRaw":
+						raw, err = lsys.LoadRaw(linking.LinkContext{}, lnk)
+					case "LoadPlusRaw":
+						n, raw, err = lsys.LoadPlusRaw(linking.LinkContext{}, lnk, basicnode.Prototype.Any)
+					case "Fill":
+						nb := basicnode.Prototype.Any.NewBuilder()
+						if err = lsys.Fill(linking.LinkContext{}, lnk, nb); err == nil {
+							n = nb.Build()
+						}
+					}
+				}) {
+					continue
+				}
+				c.Count("faulted_loads", 1)
+				c.Count("big_block_faulted_loads", 1)
+				var hm linking.ErrHashMismatch
+				switch {
+				case ioErr:
+					if err == nil {
+						c.Deviate("C06:read-error-swallowed:"+op, fmt.Sprintf("big block (%d bytes), %s: the reader failed after %d bytes but %s returned no error", len(data), fault, cur.failAt, op))
+					} else if n != nil {
+						c.Deviate("C06:node-with-error:"+op, fmt.Sprintf("big block, %s: node together with error %v", fault, err))
+					}
+				case !hashOK:
+					if err == nil {
+						c.Deviate("C06:unverified-data-returned:"+op, fmt.Sprintf("big block (%d bytes), %s: served bytes do not hash to the link, but %s succeeded", len(data), fault, op))
+					} else if !errors.As(err, &hm) {
+						c.Deviate("C06:not-hash-mismatch-error:"+op, fmt.Sprintf("big block (%d bytes), %s: %s returned %T: %v instead of ErrHashMismatch", len(data), fault, op, err, err))
+					} else if n != nil || len(raw) > 0 {
+						c.Deviate("C06:data-with-mismatch:"+op, fmt.Sprintf("big block, %s: data together with ErrHashMismatch", fault))
+					}
+				default:
+					if err != nil {
+						c.Deviate("C06:intact-block-fails:"+op, fmt.Sprintf("big block (%d bytes), %s: %s failed: %v", len(data), fault, op, err))
+						continue
+					}
+					if n != nil {
+						if v := obs.ReadOut(n, obs.Options{Light: true}).Val; !model.Equal(v, want) {
+							c.Deviate("C06:chunking-changes-result:"+op, fmt.Sprintf("big block (%d bytes), %s: %s read a different value (%d nodes)", len(data), fault, op, v.Stats().Nodes))
+						}
+					}
+					if (op == "LoadRaw" || op == "LoadPlusRaw") && !bytes.Equal(raw, data) {
+						c.Deviate("C06:raw-differs:"+op, fmt.Sprintf("big block (%d bytes), %s: raw has %d bytes", len(data), fault, len(raw)))
+					}
+				}
+			}
+		}
+		var pos []int
+		for _, p := range []int{0, 1, 511, 512, 513, 4095, 4096, 4097, 8191, 8192, 32767, 32768, 32769, 65535, 65536, len(data) / 2, len(data) - 2, len(data) - 1} {
+			if p >= 0 && p < len(data) {
+				pos = append(pos, p)
+			}
+		}
+		shapes := []func(d []byte, failAt int) *faultReader{
+			func(d []byte, f int) *faultReader { return &faultReader{data: d, failAt: f} },
+			func(d []byte, f int) *faultReader { return &faultReader{data: d, failAt: f, chunks: []int{4096}} },
+			func(d []byte, f int) *faultReader { return &faultReader{data: d, failAt: f, chunks: []int{512}, lastWithErr: true} },
+			func(d []byte, f int) *faultReader { return &faultReader{data: d, failAt: f, chunks: []int{4096, 1}, lastWithErr: true} },
+			func(d []byte, f int) *faultReader { return &faultReader{data: d, failAt: f, chunks: []int{1000, 3, 4096}} },
+		}
+		for si, sh := range shapes {
+			mk := sh
+			try(fmt.Sprintf("unmodified, reader shape %d", si), func() *faultReader { return mk(data, -1) })
+		}
+		for _, p := range pos {
+			m := append([]byte(nil), data...)
+			m[p] ^= 1 << uint(rng.Intn(8))
+			mk := shapes[rng.Intn(len(shapes))]
+			try(fmt.Sprintf("bitflip in byte %d", p), func() *faultReader { return mk(m, -1) })
+			pp := p
+			mk2 := shapes[rng.Intn(len(shapes))]
+			try(fmt.Sprintf("truncate@%d", pp), func() *faultReader { return mk2(data[:pp:pp], -1) })
+			mk3 := shapes[rng.Intn(len(shapes))]
+			try(fmt.Sprintf("read error after %d bytes", pp), func() *faultReader { return mk3(data, pp) })
+		}
+		for _, ext := range [][]byte{{0}, {' '}, []byte("\n"), bytes.Repeat([]byte{' '}, 5000), bytes.Repeat([]byte{0xff}, 4096)} {
+			e := append(append([]byte(nil), data...), ext...)
+			for si, sh := range shapes {
+				mk := sh
+				try(fmt.Sprintf("extended by %d bytes (%#02x…), reader shape %d", len(ext), ext[0], si), func() *faultReader { return mk(e, -1) })
+			}
+			// the genuine block first, then the extension in a separate read
+			try(fmt.Sprintf("extended by %d bytes, arriving after the genuine block", len(ext)), func() *faultReader {
+				return &faultReader{data: e, failAt: -1, chunks: []int{len(data), 1 << 20}}
+			})
+		}
+	}
 }
 
 type countingFailWriter struct {
@@ -389,6 +597,39 @@ func c06StoreSide(c *fw.Ctx, rng *fw.RNG, blk c06Block) {
 		c.Count("store_writer_faults", 1)
 		if serr == nil || committed > 0 {
 			c.Deviate(fmt.Sprintf("C06:store-commits-after-write-error:%#x", blk.codec), fmt.Sprintf("storage writer failed at its write #%d of %d, Store returned link=%v err=%v and the committer was called %d time(s) (only %d bytes had been written)", k, writes, lnk, serr, committed, w.wrote))
+		}
+	}
+	// the write opener fails (with and without handing out a writer and committer as well); the committer fails
+	for _, withWriter := range []bool{false, true} {
+		committed = 0
+		ww := withWriter
+		lsysO := lsys
+		lsysO.StorageWriteOpener = func(linking.LinkContext) (io.Writer, linking.BlockWriteCommitter, error) {
+			if ww {
+				return &countingFailWriter{failAt: 1 << 30}, func(datamodel.Link) error { committed++; return nil }, errInjectedOpen
+			}
+			return nil, nil, errInjectedOpen
+		}
+		var serr error
+		if !c.Guard("C06:Store", func() { _, serr = lsysO.Store(linking.LinkContext{}, lp, n0) }) {
+			c.Count("store_open_errors", 1)
+			if serr == nil || committed > 0 {
+				c.Deviate("C06:store-ignores-open-error", fmt.Sprintf("the storage write opener failed (writer also returned: %v); Store returned err=%v, committer calls=%d", ww, serr, committed))
+			}
+		}
+	}
+	{
+		lsysC := lsys
+		errCommit := errors.New("injected commit error")
+		lsysC.StorageWriteOpener = func(linking.LinkContext) (io.Writer, linking.BlockWriteCommitter, error) {
+			return &countingFailWriter{failAt: 1 << 30}, func(datamodel.Link) error { return errCommit }, nil
+		}
+		var serr error
+		if !c.Guard("C06:Store", func() { _, serr = lsysC.Store(linking.LinkContext{}, lp, n0) }) {
+			c.Count("store_commit_errors", 1)
+			if serr == nil {
+				c.Deviate("C06:store-ignores-commit-error", "the committer returned an error and Store returned nil")
+			}
 		}
 	}
 	// encoder failure: a node whose iterators fail after k entries
